@@ -140,7 +140,14 @@ enum Obj {
     Flag([i32; 3]),
     Laser([i32; 5]),
     GameInfoEx([i32; 3]),
+    // further UUID-typed kinds of different sizes (their raw type numbers are assigned per snapshot, in order of first use)
+    MyOwnObject([i32; 1]),
+    DdnetPlayer([i32; 2]),
+    EntityEx([i32; 3]),
+    SpecChar([i32; 2]),
 }
+
+const N_KINDS: u64 = 8;
 
 impl Obj {
     fn to_snap_obj(&self) -> so::SnapObj {
@@ -149,10 +156,18 @@ impl Obj {
             Obj::Flag(a) => so::SnapObj::Flag(so::Flag { x: a[0], y: a[1], team: a[2] }),
             Obj::Laser(a) => so::SnapObj::Laser(so::Laser { x: a[0], y: a[1], from_x: a[2], from_y: a[3], start_tick: libtw2_gamenet_ddnet::snap_obj::Tick(a[4]) }),
             Obj::GameInfoEx(a) => so::SnapObj::GameInfoEx(so::GameInfoEx { flags: a[0], version: a[1], flags2: a[2] }),
+            Obj::MyOwnObject(a) => so::SnapObj::MyOwnObject(so::MyOwnObject { test: a[0] }),
+            Obj::DdnetPlayer(a) => so::SnapObj::DdnetPlayer(so::DdnetPlayer { flags: a[0], auth_level: a[1] }),
+            Obj::EntityEx(a) => so::SnapObj::EntityEx(so::EntityEx { switch_number: a[0], layer: a[1], entity_class: a[2] }),
+            Obj::SpecChar(a) => so::SnapObj::SpecChar(so::SpecChar { x: a[0], y: a[1] }),
         }
     }
     fn gen(r: &mut Prng, kind: u64) -> Obj {
-        match kind % 4 {
+        match kind % N_KINDS {
+            4 => Obj::MyOwnObject([r.i32_edge()]),
+            5 => Obj::DdnetPlayer([r.i32_edge(), r.below(4) as i32]),
+            6 => Obj::EntityEx([r.i32_edge(), r.i32_edge(), r.i32_edge()]),
+            7 => Obj::SpecChar([r.i32_edge(), r.i32_edge()]),
             0 => Obj::Pickup([r.i32_edge(), r.i32_edge(), r.below(6) as i32, r.below(1 << 20) as i32]),
             1 => Obj::Flag([r.i32_edge(), r.i32_edge(), r.below(2) as i32]),
             2 => Obj::Laser([r.i32_edge(), r.i32_edge(), r.i32_edge(), r.i32_edge(), r.i32_edge()]),
@@ -165,6 +180,10 @@ impl Obj {
             Obj::Flag(_) => 1,
             Obj::Laser(_) => 2,
             Obj::GameInfoEx(_) => 3,
+            Obj::MyOwnObject(_) => 4,
+            Obj::DdnetPlayer(_) => 5,
+            Obj::EntityEx(_) => 6,
+            Obj::SpecChar(_) => 7,
         }
     }
 }
@@ -417,7 +436,7 @@ impl DemoEngine {
                     DemoOp::Snap { inc, muts, salt } => {
                         let mut r = Prng::new(mix(cfg.seed, salt as u64, 0x736e6170));
                         for _ in 0..muts {
-                            let kind = r.below(4);
+                            let kind = r.below(N_KINDS);
                             let id = r.below(12) as u16;
                             match r.below(3) {
                                 0 => {
@@ -534,7 +553,7 @@ impl DemoEngine {
                         }
                         // the current world plus one object of an existing kind under an id that is already taken
                         let mut objs: Vec<(so::SnapObj, u16)> = world.iter().map(|(&(_, id), o)| (o.to_snap_obj(), id)).collect();
-                        let kind = r.below(4);
+                        let kind = r.below(N_KINDS);
                         let a = Obj::gen(&mut r, kind);
                         let b = Obj::gen(&mut r, kind);
                         let id = r.below(12) as u16;
